@@ -237,7 +237,9 @@ class SigmaString(SigmaType):
                 if e_len > start:
                     # else:
                     if end < e_len:  # end lies within this string part
-                        return self.__class__(e[start : cast(int, end)])
+                        part = self.__class__()  # plain part: must not be parsed again
+                        part.s = [e[start : cast(int, end)]]
+                        return part
                     else:  # end lies behind the current string part
                         result.append(e[start:])
                         # end -= start
